@@ -510,7 +510,7 @@ func runReader(tb ev.TB, c readerCase) (labels []string, nontrivial bool) {
 	ctx, cancel := context.WithCancel(context.Background())
 	defer cancel()
 	var eventAt time.Time
-	if c.Blocked == "commit" && (!c.Group || len(fetched) == 0) {
+	if (c.Blocked == "commit" || c.Blocked == "commit-flood") && (!c.Group || len(fetched) == 0) {
 		c.Blocked = "none" // nothing to commit
 	}
 	switch c.Blocked {
@@ -539,6 +539,19 @@ func runReader(tb ev.TB, c readerCase) (labels []string, nontrivial bool) {
 			err := r.CommitMessages(ctx, fetched[len(fetched)-1])
 			blockedDone <- result{err, time.Since(eventAt)}
 		}()
+	case "commit-flood":
+		// interval commits are only queued: the application goes on committing while the commit loop sits in a request the
+		// coordinator does not answer, until the queue (QueueCapacity) is full and CommitMessages itself blocks
+		go func() {
+			for i := 0; i < 600; i++ {
+				if err := r.CommitMessages(ctx, fetched[len(fetched)-1]); err != nil {
+					blockedDone <- result{err, time.Since(eventAt)}
+					return
+				}
+				time.Sleep(2 * time.Millisecond)
+			}
+			blockedDone <- result{nil, time.Since(eventAt)}
+		}()
 	}
 	time.Sleep(time.Duration(c.DelayUs) * time.Microsecond)
 	eventAt = time.Now()
@@ -554,7 +567,10 @@ func runReader(tb ev.TB, c readerCase) (labels []string, nontrivial bool) {
 					fail("c09/cancel-wrong-error", "FetchMessage blocked with a context that was cancelled returned %v, want an error wrapping context.Canceled", res.err)
 					return
 				}
-				if c.Blocked == "commit" && res.err != nil && !errors.Is(res.err, context.Canceled) {
+				if c.Blocked == "commit-flood" {
+					ev.Label("commit_flood_returned_after_cancel")
+				}
+				if (c.Blocked == "commit" || c.Blocked == "commit-flood") && res.err != nil && !errors.Is(res.err, context.Canceled) {
 					// a commit that completed or failed for its own reason before the cancellation is fine
 					var ke kafka.Error
 					if !errors.As(res.err, &ke) && !errors.Is(res.err, io.ErrClosedPipe) {
@@ -743,7 +759,18 @@ func TestReaderClose(t *testing.T) {
 		if c.FetchFirst > c.Records*2 {
 			c.FetchFirst = c.Records * 2
 		}
-		if rapid.IntRange(0, 9).Draw(t, "fullQueueThenError") == 0 {
+		if rapid.IntRange(0, 7).Draw(t, "commitFlood") == 0 {
+			// CommitMessages blocked on a full commit queue (interval mode) when its context ends
+			c.Group, c.Blocked, c.BrokerState, c.CloseDuring = true, "commit-flood", "stall-commit", ""
+			c.Event = rapid.SampledFrom([]string{"cancel", "cancel", "cancel", "close"}).Draw(t, "cfEvent")
+			c.CommitMs = rapid.SampledFrom([]int{5, 10, 30}).Draw(t, "cfCommitMs")
+			c.QueueCap = rapid.IntRange(1, 3).Draw(t, "cfQueueCap")
+			c.Members = 1
+			c.Records = 4 + c.QueueCap
+			c.FetchFirst = rapid.IntRange(1, 2).Draw(t, "cfFetchFirst")
+			c.DelayUs = rapid.SampledFrom([]int{150000, 300000}).Draw(t, "cfDelayUs")
+		}
+		if c.Blocked != "commit-flood" && rapid.IntRange(0, 9).Draw(t, "fullQueueThenError") == 0 {
 			// a lagging application: the queue is full to the last slot when the partition reader has an error to report
 			c.Group, c.Blocked, c.Event, c.BrokerState, c.CloseDuring = false, "none", rapid.SampledFrom([]string{"close", "cancel"}).Draw(t, "fqEvent"), "error-fetch", ""
 			c.QueueCap = rapid.IntRange(1, 4).Draw(t, "queueCap")
@@ -751,7 +778,7 @@ func TestReaderClose(t *testing.T) {
 			c.Records = c.QueueCap + c.FetchFirst
 			c.DelayUs = 450000
 		}
-		if c.QueueCap == 0 && rapid.IntRange(0, 9).Draw(t, "futureCodec") == 0 {
+		if c.QueueCap == 0 && c.Blocked != "commit-flood" && rapid.IntRange(0, 9).Draw(t, "futureCodec") == 0 {
 			c.FutureCodec, c.Group, c.Blocked, c.Event, c.BrokerState, c.CloseDuring = true, false, "none", "close", "normal", ""
 			c.DelayUs = rapid.SampledFrom([]int{2000, 30000, 100000}).Draw(t, "fcDelayUs")
 		}
